@@ -136,6 +136,20 @@ func (w *world) checkBacked() {
 	chk := func(contract string, c types.Address, z types.ZenonTokenStandard, owed *big.Int) {
 		b := bal(c, z)
 		out.Oracle(owed.Cmp(b) <= 0, "liabilities-exceed-balance", M{"contract": contract, "zts": z.String(), "owed": Big(owed), "balance": Big(b)})
+		// the induction step of "always holds at least what it owes": what the contract holds beyond its liabilities
+		// (genesis surplus, donations) never shrinks - an entry is booked only against a deposit of the same token and
+		// of at least that amount, a payout removes at least what it pays. A chain whose genesis surplus is zero would
+		// break the invariant itself at this very step.
+		if w.surplus == nil {
+			w.surplus = map[string]*big.Int{}
+		}
+		key := contract + "/" + z.String()
+		cur := new(big.Int).Sub(b, owed)
+		if prev, ok := w.surplus[key]; ok {
+			out.Oracle(cur.Cmp(prev) >= 0, "liability-booked-without-matching-deposit", M{"contract": contract, "zts": z.String(),
+				"surplus_before": Big(prev), "surplus_after": Big(cur), "owed": Big(owed), "balance": Big(b)})
+		}
+		w.surplus[key] = cur
 	}
 	// stake
 	owed := new(big.Int)
@@ -198,6 +212,11 @@ func (w *world) checkBacked() {
 			per[h.TokenStandard] = new(big.Int)
 		}
 		per[h.TokenStandard].Add(per[h.TokenStandard], h.Amount)
+	}
+	for _, z := range w.tokens {
+		if per[z] == nil {
+			per[z] = new(big.Int)
+		}
 	}
 	for z, o := range per {
 		chk("htlc", types.HtlcContract, z, o)
@@ -426,6 +445,22 @@ func (w *world) lockOp() {
 	znn, qsr := types.ZnnTokenStandard, types.QsrTokenStandard
 	zero := big.NewInt(0)
 	call := func(k *wallet.KeyPair, c types.Address, z types.ZenonTokenStandard, amt *big.Int, data []byte, key string, args ...interface{}) {
+		// now and then the deposit arrives in the WRONG token (ZNN for QSR and vice versa) or with an amount just off the
+		// required one: the contract has to refuse it (refund), never book it as a liability in its own token
+		if amt.Sign() > 0 && c != types.HtlcContract {
+			switch rng.Intn(12) {
+			case 0:
+				if z == znn {
+					z = qsr
+				} else {
+					z = znn
+				}
+				w.out.Count("locks:deposit-in-wrong-token:" + key)
+			case 1:
+				amt = new(big.Int).Add(amt, big.NewInt(int64(rng.Intn(3)-1)))
+				w.out.Count("locks:deposit-amount-off-by-one:" + key)
+			}
+		}
 		if b := w.send(k, c, z, amt, data, "lock-op"); b != nil {
 			w.made[key] = append(w.made[key], madeEntry{b.Hash, k, args})
 		}
